@@ -38,4 +38,5 @@ def get_full_class_name(cls):
     :param cls: The class.
     :return: The full name of the class
     """
-    return cls.__module__ + "." + cls.__name__
+    # the qualified name: a class defined inside another class is Outer.Inner
+    return cls.__module__ + "." + cls.__qualname__
